@@ -106,8 +106,8 @@ namespace ratio
 
     CORE_EXPORT arith_expr add(const std::vector<arith_expr> &exprs) noexcept;
     CORE_EXPORT arith_expr sub(const std::vector<arith_expr> &exprs) noexcept;
-    CORE_EXPORT arith_expr mult(const std::vector<arith_expr> &exprs) noexcept;
-    CORE_EXPORT arith_expr div(const std::vector<arith_expr> &exprs) noexcept;
+    CORE_EXPORT arith_expr mult(const std::vector<arith_expr> &exprs);
+    CORE_EXPORT arith_expr div(const std::vector<arith_expr> &exprs);
     CORE_EXPORT arith_expr minus(arith_expr ex) noexcept;
 
     CORE_EXPORT bool_expr lt(arith_expr left, arith_expr right) noexcept;
